@@ -652,7 +652,7 @@ def run(ctx):
         L = replay_events(ctx, "corpus/" + name, c["reset"], c["events"])
         T.compare(ctx, "corpus", [L])
     q = ctx.quick
-    n_mix, ev_mix = (48, 260) if q else (1600, 420)
+    n_mix, ev_mix = (48, 260) if q else (1000, 420)
     n_wrap, ev_wrap = (6, 330) if q else (64, 600)
     per = max(1, n_mix // 16)
     specs = [("mix", lo, min(lo + per, n_mix), ev_mix) for lo in range(0, n_mix, per)]
